@@ -33,6 +33,19 @@ class _Rename(ast.NodeTransformer):
         return n
 
 
+def reversal_ok(rev, fwd):
+    """rev = (hi-1, lo-1, -s), fwd = (lo, hi, s) as tuple expressions -> True/False, None if not affine."""
+    from sa import affine
+    if not (isinstance(rev, ast.Tuple) and isinstance(fwd, ast.Tuple) and len(rev.elts) == 3 and len(fwd.elts) == 3):
+        return None
+    try:
+        r = [affine.from_ast(e) for e in rev.elts]
+        f = [affine.from_ast(e) for e in fwd.elts]
+    except affine.NonAffine:
+        return None
+    return (r[0] == f[1] - 1) and (r[1] == f[0] - 1) and (r[2] == -f[2]) and f[2] == affine.Lin.const(1)
+
+
 def r11_1(ctx):
     k1 = ctx.prog.func(R + '.gauss_seidel')
     k2 = ctx.prog.func(R + '.gauss_seidel_indexed')
@@ -76,9 +89,8 @@ def r11_1(ctx):
         raise AnchorMissing('R11.1: reverse branch missing in gauss_seidel_indexed')
     rev = src(iff[0].body[0].value).replace(' ', '')
     fwd = src(iff[0].orelse[0].value).replace(' ', '')
-    ctx.decide('R11.1', k2.qual, 'reverse: %s ; forward: %s' % (rev, fwd),
-               rev == '(indices.shape[0]-1,-1,-1)' and fwd == '(0,indices.shape[0],1)', iff[0],
-               'backward traversal (n-1,-1,-1) is the exact reversal of forward (0,n,1)')
+    ctx.decide('R11.1', k2.qual, 'reverse: %s ; forward: %s' % (rev, fwd), reversal_ok(iff[0].body[0].value, iff[0].orelse[0].value), iff[0],
+               'backward traversal (n-1,-1,-1) is the exact reversal of forward (0,n,1)', definite=True)
     ctx.decide('R11.1', k2.qual, 'row index i = indices[idx]', any(src(s) == 'i = indices[idx]' for s in w2.body), w2)
     # driver
     g = ctx.prog.func(S + '.gauss_seidel')
@@ -89,9 +101,15 @@ def r11_1(ctx):
     if t is None:
         raise AnchorMissing('R11.1: traversal bounds in solvers.gauss_seidel')
     v = t.value
-    ok = isinstance(v, ast.IfExp) and src(v.test).replace(' ', '') == "sweep=='forward'" and \
-        src(v.body).replace(' ', '') == '(0,N,1)' and src(v.orelse).replace(' ', '') == '(N-1,-1,-1)'
-    ctx.decide('R11.1', g.qual, src(t), ok, t, 'forward (0,N,1); backward (N-1,-1,-1)')
+    ok = None
+    if isinstance(v, ast.IfExp):
+        fwd_first = "'forward'" in src(v.test) and isinstance(v.test, ast.Compare) and isinstance(v.test.ops[0], ast.Eq)
+        bwd_first = "'backward'" in src(v.test) and isinstance(v.test, ast.Compare) and isinstance(v.test.ops[0], ast.Eq)
+        if fwd_first:
+            ok = reversal_ok(v.orelse, v.body)
+        elif bwd_first:
+            ok = reversal_ok(v.body, v.orelse)
+    ctx.decide('R11.1', g.qual, src(t), ok, t, 'forward (0,N,1); backward (N-1,-1,-1)', definite=True)
     rv = [s for s in own_nodes(g.node) if isinstance(s, ast.Assign) and src(s.targets[0]) == 'reverse']
     ok = bool(rv) and src(rv[0].value).replace(' ', '') == "sweep=='backward'"
     ctx.decide('R11.1', g.qual, src(rv[0]) if rv else 'reverse', ok, rv[0] if rv else g.node)
@@ -147,7 +165,19 @@ def r11_2(ctx):
             if no_dir:
                 ctx.met('R11.2', m.qual, src(s)[:110], s, 'remove_dirichlet=False variant (used by assembly only)', nontrivial=False)
             else:
-                ctx.decide('R11.2', m.qual, src(s)[:110] + ' removes Dirichlet', rem, s, 'no Dirichlet dof of (lv, i) enters a smoothing set')
+                # semantic: the stored value subtracts (or .difference()s) the Dirichlet set of exactly this (lv, i)
+                mentions = [x for x in ast.walk(s.value) if isinstance(x, ast.Subscript) and src(x).replace(' ', '') == 'self.index_dirichlet[lv][i]']
+                other = [x for x in ast.walk(s.value) if isinstance(x, ast.Attribute) and x.attr == 'index_dirichlet']
+                if rem:
+                    ctx.met('R11.2', m.qual, src(s)[:110] + ' removes Dirichlet', s, 'no Dirichlet dof of (lv, i) enters a smoothing set')
+                elif not other:
+                    ctx.violated('R11.2', m.qual, src(s)[:110] + ' removes Dirichlet', s,
+                                 'the stored set does not involve index_dirichlet at all: Dirichlet dofs of (lv, i) enter the smoothing set')
+                elif not mentions:
+                    ctx.violated('R11.2', m.qual, src(s)[:110] + ' removes Dirichlet', s,
+                                 'the Dirichlet set removed is not the one of this (lv, i): %s' % sorted({src(parent(parent(x))) for x in other})[:2])
+                else:
+                    ctx.undecided('R11.2', m.qual, src(s)[:110] + ' removes Dirichlet', s, 'Dirichlet set of (lv, i) is used, form not recognised')
         r = guards.returns_of(m.node)
         ctx.decide('R11.2', m.qual, 'returns indices', bool(r) and src(r[-1].value) == 'indices', m.node)
     # new_indices
@@ -262,7 +292,22 @@ def r11_4(ctx):
     order = ['x = step(x)', 'r = f - A @ x', 'res = scipy.linalg.norm(r[active_dofs])', 'iterations += 1']
     pos = [ix.get(k) for k in order]
     ok = None not in pos and pos == sorted(pos)
-    ctx.decide('R11.4', fi.qual, ' ; '.join(texts[:4]), ok, w[0], 'the residual tested is computed from the iterate that is returned, with no update in between')
+    # semantic order: position of the update x = <call>(x), of the residual (contains A @ x / A.dot(x)), of its norm
+    def first_index(pred):
+        for i, s in enumerate(body):
+            if pred(s):
+                return i
+        return None
+    i_upd = first_index(lambda s: isinstance(s, ast.Assign) and src(s.targets[0]) == 'x' and isinstance(s.value, ast.Call))
+    i_res = first_index(lambda s: isinstance(s, ast.Assign) and ('A @ x' in src(s.value) or 'A.dot(x)' in src(s.value)))
+    i_tst = first_index(lambda s: isinstance(s, ast.If) and any(isinstance(b, ast.Return) for b in ast.walk(s)))
+    if ok:
+        ctx.met('R11.4', fi.qual, ' ; '.join(texts[:4]), w[0], 'the residual tested is computed from the iterate that is returned, with no update in between')
+    elif None not in (i_upd, i_res, i_tst):
+        ctx.decide('R11.4', fi.qual, 'order in the loop: update@%d, residual@%d, test@%d' % (i_upd, i_res, i_tst), i_upd < i_res < i_tst, w[0],
+                   'the residual must be computed after the update and before the test, otherwise the test judges the previous iterate', definite=True)
+    else:
+        ctx.undecided('R11.4', fi.qual, ' ; '.join(texts[:4]), w[0], 'loop structure not recognised')
     rets = [r for r in guards.returns_of(fn)]
     ctx.floor('R11.4', 'returns of iterative_solve', len(rets), 2)
     for r in rets:
@@ -273,11 +318,30 @@ def r11_4(ctx):
         if 'res/res0<tol' in pos_t:
             ctx.decide('R11.4', fi.qual, src(r) + ' under res / res0 < tol', v == '(x,iterations)', r, 'converged exit reports the iteration count')
         elif 'iterations>=maxiter' in pos_t or 'iterations>maxiter' in pos_t:
-            ctx.decide('R11.4', fi.qual, src(r) + ' under iterations >= maxiter', v == '(x,np.inf)', r, 'the iteration limit is reported as inf')
+            second = r.value.elts[1] if isinstance(r.value, ast.Tuple) and len(r.value.elts) == 2 else None
+            is_inf = second is not None and src(second).replace(' ', '') in ('np.inf', 'numpy.inf', 'math.inf', "float('inf')", 'inf')
+            is_count = second is not None and isinstance(second, ast.Name)
+            ctx.decide('R11.4', fi.qual, src(r) + ' under iterations >= maxiter', True if is_inf else (False if is_count else None), r,
+                       'the iteration limit is reported as inf (documented), not as a finite count', definite=True)
         else:
             ctx.violated('R11.4', fi.qual, src(r), r, 'return not guarded by the residual test or the iteration limit (guards: %s)' % pos_t)
     brk = [n for n in ast.walk(w[0]) if isinstance(n, ast.Break)]
     ctx.decide('R11.4', fi.qual, 'no break in the iteration loop', not brk, w[0])
+    # the reference residual belongs to the starting vector that is actually used
+    pre = [s for s in own_nodes(fn) if isinstance(s, (ast.Assign, ast.AugAssign)) and s.lineno < w[0].lineno]
+    take_x0 = [s for s in pre if 'x0' in {n.id for n in ast.walk(s.value) if isinstance(n, ast.Name)}
+               and src(s.targets[0] if isinstance(s, ast.Assign) else s.target).split('[')[0] == 'x']
+    res_x = [s for s in pre if isinstance(s, ast.Assign) and src(s.targets[0]) == 'res0'
+             and any(isinstance(b, ast.BinOp) and isinstance(b.op, ast.MatMult) and src(b.right) in ('x', 'x0') or
+                     (isinstance(b, ast.Call) and src(b.func) in ('A.dot',) and b.args and src(b.args[0]) in ('x', 'x0')) for b in ast.walk(s.value))]
+    if take_x0 and res_x:
+        ok = all(r.lineno > min(t.lineno for t in take_x0) for r in res_x)
+        ctx.decide('R11.4', fi.qual, 'res0 from f - A x with x = x0 (x0 read at line %d, residual at line %s)' % (
+            min(t.lineno for t in take_x0) - fn.lineno, [r.lineno - fn.lineno for r in res_x]), ok, res_x[0],
+            'the requested reduction is relative to the residual of the given starting vector; computing res0 before x0 is copied in '
+            'measures against ||f|| instead', definite=True)
+    else:
+        ctx.undecided('R11.4', fi.qual, 'reference residual of a given starting vector', fn, 'statements not recognised')
     r0 = [s for s in own_nodes(fn) if isinstance(s, ast.Assign) and src(s.targets[0]) == 'res0']
     ok = any(src(s.value).replace(' ', '') == 'scipy.linalg.norm(res0[active_dofs])' for s in r0)
     ctx.decide('R11.4', fi.qual, 'res0 = norm(res0[active_dofs])', ok or None, fn, 'reference residual uses the same dof set as the test')
